@@ -64,7 +64,7 @@ func (s *c16) Start(r *kit.Rng, cfg map[string]int64) {
 	if r == nil {
 		return
 	}
-	s.maxSteps = r.Range(3, 40)
+	s.maxSteps = r.Range(3, 40*kit.Depth)
 	cfg["max_steps"] = int64(s.maxSteps)
 }
 
